@@ -16,6 +16,8 @@ git apply "$src/patch.diff" || { echo "patch does not apply"; cd /; git -C /repo
 stat=$(git diff --shortstat)
 timeout 180 /venv/bin/python "$src/demo.py" > /tmp/sv/$prop-$round.patched.log 2>&1; p1=$?
 tests=$(timeout 1200 /venv/bin/python -m pytest -q -p no:cacheprovider --timeout=900 tests 2>&1 | tail -1)
+# (on a loaded machine one of the timing-based tests may fail once: the suite gets a second run before the change is turned down)
+echo "$tests" | grep -q "^449 passed" || tests=$(timeout 1200 /venv/bin/python -m pytest -q -p no:cacheprovider --timeout=900 tests 2>&1 | tail -1)
 cd /
 git -C /repo worktree remove --force "$wt"
 res="$prop-$round demo_orig_rc=$o1,$o2 demo_patched_rc=$p1 tests=[$tests] diff=[$stat]"
